@@ -89,6 +89,12 @@ def gen_mutations(framing, spec):
         yield 'bitflip', bytes(x)
     yield 'extended', f + b'\x00'
     yield 'extended', f + f
+    # the valid frame with stray bytes in front of it, and with its first bytes missing (a frame that is well-formed only
+    # after re-alignment is not well-formed)
+    for stray in (b'\x00', b'\xff', b'\xaa', b'\x55', b'\x00\x00', b'\xaa\x55', f[:2], f[:3], f[:4], f[:6], bytes(7), f[-2:], b'\x0d\x0a'):
+        yield 'prefixed', stray + f
+    for i in range(1, min(8, len(f))):
+        yield 'head-missing', f[i:]
 
 
 def crc_variants(body, header):
